@@ -1,4 +1,6 @@
 import PanderaModel.Subsample
+import PanderaModel.SubsampleValidate
+import PanderaModel.Generated.SubsampleRules
 /-!
 # C20 — head/tail/sample validate exactly the requested rows
 -/
@@ -113,6 +115,294 @@ theorem K_C20_duplicateRows_witness :
   ⟨[1, 1, 1], by decide⟩
 
 example : requestedPos 5 (some 2) (some 2) (some [1, 3]) = [0, 1, 3, 4] := by decide
+
+/-! ## The `subsample` programs and the argument tables of the source -/
+
+/-- the program of both backends at the pinned commit -/
+def stdProg : SubProg := { pieces := [.head, .tail, .sample], dedup := true, wholeWhenNoOption := true }
+
+/-- the program `head; tail; sample; concat; de-duplicate` computes `keptPos` -/
+theorem runSub_std {κ : Type} [BEq κ] (key : Nat → κ) (n : Nat) (h t : Option Nat) (s : Option (List Nat)) :
+    runSub stdProg key n h t s = keptPos key n h t s := by
+  cases h <;> cases t <;> cases s <;>
+    simp [runSub, stdProg, keptPos, anyOption, concatPos, pieceRequested, piecePos, List.filter]
+
+theorem mem_piecePos_requested {n : Nat} {h t : Option Nat} {s : Option (List Nat)} {pc : Piece} {i : Nat}
+    (hi : i ∈ piecePos n h t s pc) : pieceRequested h t s pc = true := by
+  cases pc
+  · cases h <;> simp [piecePos, pieceRequested] at hi ⊢
+  · cases t <;> simp [piecePos, pieceRequested] at hi ⊢
+  · cases s <;> simp [piecePos, pieceRequested] at hi ⊢
+
+theorem mem_concatPos_iff (n : Nat) (h t : Option Nat) (s : Option (List Nat)) (i : Nat) :
+    i ∈ concatPos n h t s ↔ ∃ pc : Piece, i ∈ piecePos n h t s pc := by
+  unfold concatPos
+  simp only [List.mem_append]
+  constructor
+  · rintro ((hi | hi) | hi)
+    · exact ⟨.head, hi⟩
+    · exact ⟨.tail, hi⟩
+    · exact ⟨.sample, hi⟩
+  · rintro ⟨pc, hi⟩
+    cases pc
+    · exact Or.inl (Or.inl hi)
+    · exact Or.inl (Or.inr hi)
+    · exact Or.inr hi
+
+theorem anyOption_iff (h t : Option Nat) (s : Option (List Nat)) :
+    anyOption h t s = true ↔ ∃ pc : Piece, pieceRequested h t s pc = true := by
+  unfold anyOption
+  constructor
+  · intro hh
+    simp only [Bool.or_eq_true] at hh
+    rcases hh with (hh | hh) | hh
+    · exact ⟨.head, hh⟩
+    · exact ⟨.tail, hh⟩
+    · exact ⟨.sample, hh⟩
+  · rintro ⟨pc, hp⟩
+    cases pc <;> simp [pieceRequested] at hp <;> simp [hp]
+
+theorem covers_mem (p : SubProg) (hc : p.covers = true) (pc : Piece) : pc ∈ p.pieces := by
+  unfold SubProg.covers at hc
+  simp only [Bool.and_eq_true, List.contains_iff_mem] at hc
+  cases pc
+  · exact hc.1.1.1
+  · exact hc.1.1.2
+  · exact hc.1.2
+
+/-- **C20 (a), for every program that reads the three options** (in any order, even repeatedly) and
+de-duplicates by an injective key: the validated rows are the requested rows -/
+theorem runSub_mem_iff {κ : Type} [BEq κ] [LawfulBEq κ] (p : SubProg) (key : Nat → κ) (n : Nat)
+    (h t : Option Nat) (s : Option (List Nat)) (hc : p.covers = true)
+    (hs : ∀ ps, s = some ps → ∀ i ∈ ps, i < n)
+    (hinj : ∀ i j, i < n → j < n → key i = key j → i = j) (i : Nat) :
+    i ∈ runSub p key n h t s ↔ i ∈ requestedPos n h t s := by
+  have hwhole : p.wholeWhenNoOption = true := by
+    unfold SubProg.covers at hc; simp only [Bool.and_eq_true] at hc; exact hc.2
+  -- membership in the concatenation the program builds
+  have hcat : ∀ j, j ∈ ((p.pieces.filter (pieceRequested h t s)).map (piecePos n h t s)).flatten
+      ↔ j ∈ concatPos n h t s := by
+    intro j
+    rw [mem_concatPos_iff]
+    simp only [List.mem_flatten, List.mem_map, List.mem_filter]
+    constructor
+    · rintro ⟨l, ⟨pc, _, rfl⟩, hj⟩; exact ⟨pc, hj⟩
+    · rintro ⟨pc, hj⟩; exact ⟨_, ⟨pc, ⟨covers_mem p hc pc, mem_piecePos_requested hj⟩, rfl⟩, hj⟩
+  have hempty : (p.pieces.filter (pieceRequested h t s)).isEmpty = !anyOption h t s := by
+    cases ha : anyOption h t s
+    · have : ∀ pc ∈ p.pieces, pieceRequested h t s pc = false := by
+        intro pc _
+        cases hr : pieceRequested h t s pc
+        · rfl
+        · have := (anyOption_iff h t s).mpr ⟨pc, hr⟩; rw [ha] at this; cases this
+      have hnil : p.pieces.filter (pieceRequested h t s) = [] := by
+        rw [List.filter_eq_nil_iff]
+        intro a ha'; rw [this a ha']; simp
+      rw [hnil]; rfl
+    · obtain ⟨pc, hr⟩ := (anyOption_iff h t s).mp ha
+      have : pc ∈ p.pieces.filter (pieceRequested h t s) := List.mem_filter.mpr ⟨covers_mem p hc pc, hr⟩
+      cases hl : p.pieces.filter (pieceRequested h t s) with
+      | nil => rw [hl] at this; cases this
+      | cons _ _ => rfl
+  unfold runSub requestedPos
+  simp only [hempty, hwhole]
+  cases ha : anyOption h t s
+  · simp
+  · simp only [Bool.not_true, Bool.false_eq_true, ↓reduceIte]
+    have hlt : ∀ j ∈ ((p.pieces.filter (pieceRequested h t s)).map (piecePos n h t s)).flatten, j < n :=
+      fun j hj => concatPos_lt n h t s hs j ((hcat j).mp hj)
+    cases hd : p.dedup
+    · simp only [Bool.false_eq_true, ↓reduceIte]
+      rw [hcat, List.mem_eraseDups]
+    · simp only [↓reduceIte]
+      have : ((p.pieces.filter (pieceRequested h t s)).map (piecePos n h t s)).flatten.eraseDupsBy
+            (fun a b => key a == key b)
+          = ((p.pieces.filter (pieceRequested h t s)).map (piecePos n h t s)).flatten.eraseDups := by
+        unfold List.eraseDups
+        apply eraseDupsBy_congr
+        intro a ha' b hb'
+        by_cases hab : a = b
+        · subst hab; simp
+        · have hk : key a ≠ key b := fun hk => hab (hinj a b (hlt a ha') (hlt b hb') hk)
+          rw [beq_eq_false_iff_ne.mpr hk, beq_eq_false_iff_ne.mpr hab]
+      rw [this, List.mem_eraseDups, List.mem_eraseDups, hcat]
+
+theorem nodup_eraseDups {α : Type} [BEq α] [LawfulBEq α] (l : List α) : l.eraseDups.Nodup := by
+  induction hn : l.length using Nat.strongRecOn generalizing l with
+  | _ n ih =>
+    cases l with
+    | nil => simp
+    | cons x xs =>
+      rw [List.eraseDups_cons, List.nodup_cons]
+      have hlen : (xs.filter fun b => !b == x).length < n := by
+        subst hn; exact Nat.lt_succ_of_le (List.length_filter_le _ _)
+      refine ⟨?_, ih _ hlen _ rfl⟩
+      intro hx
+      have := (List.mem_filter.mp (List.mem_eraseDups.mp hx)).2
+      simp at this
+
+/-- each requested row is requested once -/
+theorem requested_nodup (n : Nat) (h t : Option Nat) (s : Option (List Nat)) : (requestedPos n h t s).Nodup := by
+  unfold requestedPos
+  split
+  · exact nodup_eraseDups _
+  · exact List.nodup_range
+
+/-- **C20 (a), each row once**: a de-duplicating program validates no row twice -/
+theorem runSub_nodup {κ : Type} [BEq κ] [LawfulBEq κ] (p : SubProg) (key : Nat → κ) (n : Nat)
+    (h t : Option Nat) (s : Option (List Nat)) (hd : p.dedup = true)
+    (hs : ∀ ps, s = some ps → ∀ i ∈ ps, i < n)
+    (hinj : ∀ i j, i < n → j < n → key i = key j → i = j) :
+    (runSub p key n h t s).Nodup := by
+  have hcatlt : ∀ j ∈ ((p.pieces.filter (pieceRequested h t s)).map (piecePos n h t s)).flatten, j < n := by
+    intro j hj
+    simp only [List.mem_flatten, List.mem_map, List.mem_filter] at hj
+    obtain ⟨l, ⟨pc, _, rfl⟩, hj⟩ := hj
+    exact concatPos_lt n h t s hs j ((mem_concatPos_iff n h t s j).mpr ⟨pc, hj⟩)
+  unfold runSub
+  simp only [hd, ↓reduceIte]
+  split
+  · split
+    · exact List.nodup_range
+    · simp
+  · have : ((p.pieces.filter (pieceRequested h t s)).map (piecePos n h t s)).flatten.eraseDupsBy
+          (fun a b => key a == key b)
+        = ((p.pieces.filter (pieceRequested h t s)).map (piecePos n h t s)).flatten.eraseDups := by
+      unfold List.eraseDups
+      apply eraseDupsBy_congr
+      intro a ha' b hb'
+      by_cases hab : a = b
+      · subst hab; simp
+      · have hk : key a ≠ key b := fun hk => hab (hinj a b (hcatlt a ha') (hcatlt b hb') hk)
+        rw [beq_eq_false_iff_ne.mpr hk, beq_eq_false_iff_ne.mpr hab]
+    rw [this]
+    exact nodup_eraseDups _
+
+/-- **C20 (a) as one statement**: the validated rows are a rearrangement of the requested rows -/
+theorem runSub_perm_requested {κ : Type} [BEq κ] [LawfulBEq κ] (p : SubProg) (key : Nat → κ) (n : Nat)
+    (h t : Option Nat) (s : Option (List Nat)) (hd : p.dedup = true) (hc : p.covers = true)
+    (hs : ∀ ps, s = some ps → ∀ i ∈ ps, i < n)
+    (hinj : ∀ i j, i < n → j < n → key i = key j → i = j) :
+    (runSub p key n h t s).Perm (requestedPos n h t s) :=
+  (List.perm_ext_iff_of_nodup (runSub_nodup p key n h t s hd hs hinj) (requested_nodup n h t s)).mpr
+    (runSub_mem_iff p key n h t s hc hs hinj)
+
+/-- a program that forgets an option validates the wrong rows (here: everything instead of one row) -/
+theorem forgotten_option_witness :
+    runSub { pieces := [.head, .tail], dedup := true, wholeWhenNoOption := true } id 3 none none (some [1])
+      ≠ requestedPos 3 none none (some [1]) := by decide
+
+/-- a program that does not de-duplicate validates a row twice -/
+theorem no_dedup_witness :
+    ¬ (runSub { pieces := [.head, .tail, .sample], dedup := false, wholeWhenNoOption := true } id 3 (some 2) (some 2) none).Nodup := by
+  decide
+
+/-! ## Verdict under the options = verdict on the selected rows -/
+
+theorem names_take (D : Frame) (ps : List Nat) : (D.take ps).names = D.names := by
+  unfold Frame.names Frame.take
+  simp [List.map_map, Function.comp_def]
+
+theorem hasCol_take (D : Frame) (ps : List Nat) (n : String) : (D.take ps).hasCol n = D.hasCol n := by
+  unfold Frame.hasCol; rw [names_take]
+
+theorem targets_take (spec : ColSpec) (D : Frame) (ps : List Nat) : targets spec (D.take ps) = targets spec D := by
+  unfold targets; simp only [names_take, hasCol_take]
+
+theorem expandedNames_take (S : Schema) (D : Frame) (ps : List Nat) :
+    expandedNames S (D.take ps) = expandedNames S D := by
+  unfold expandedNames; simp only [targets_take]
+
+/-- the strict / ordered test is a fact about labels: the same on the whole object and on any selection of rows -/
+theorem strictOrdered_take (S : Schema) (D : Frame) (ps : List Nat) :
+    strictOrderedErrors S (D.take ps) = strictOrderedErrors S D := by
+  unfold strictOrderedErrors; simp only [expandedNames_take, names_take]
+
+/-- so is column presence -/
+theorem presence_take (T : ScopeTable) (d : Depth) (S : Schema) (D : Frame) (ps : List Nat) :
+    presenceErrors T d S (D.take ps) = presenceErrors T d S D := by
+  unfold presenceErrors absentNames; simp only [hasCol_take]
+
+/-- **C20 (verdict)** when uniqueness and the component checks receive the subsample, validating with
+the options collects exactly the errors of validating the frame made of the selected rows — whatever
+the presence check receives -/
+theorem validate_with_options (A : CoreArgs) (T : ScopeTable) (d : Depth) (S : Schema) (D : Frame) (ps : List Nat)
+    (hj : A.jointUnique = .sample) (hc : A.components = .sample) :
+    frameErrorsWith A T d S D ps = frameErrors T d S (D.take ps) := by
+  unfold frameErrorsWith frameErrors coreCheckErrors
+  have hp : presenceErrors T d S (pick A.presence D (D.take ps)) = presenceErrors T d S (D.take ps) := by
+    cases A.presence <;> simp [pick, presence_take]
+  show strictOrderedErrors S D ++ presenceErrors T d S (pick A.presence D (D.take ps))
+      ++ jointUniqueErrors T d S (pick A.jointUnique D (D.take ps))
+      ++ (S.columns.map (fun c => columnErrors T d c (pick A.components D (D.take ps)))).flatten
+      ++ indexPartErrors T d S (pick A.components D (D.take ps)) = _
+  rw [hp, hj, hc]
+  simp only [pick, strictOrdered_take, List.append_assoc]
+
+/-- the same for a field (SeriesSchema, Index, polars Column): whatever the name check receives -/
+theorem field_with_options (A : FieldArgs) (T : ScopeTable) (d : Depth) (ctx : Ctx) (spec : ColSpec)
+    (fn : Option String) (phys : DType) (vals : List Val) (ps : List Nat)
+    (hn : A.nullable = .sample) (hu : A.unique = .sample) (hd : A.dtype = .sample) (hk : A.checks = .sample) :
+    fieldErrorsWith A T d ctx spec fn phys vals ps = fieldErrors T d ctx spec fn phys (takeVals vals ps) := by
+  unfold fieldErrorsWith fieldErrors
+  simp only [hn, hu, hd, hk, pickVals]
+
+/-- a table that hands the whole object to the component checks validates rows nobody asked for -/
+theorem whole_components_witness :
+    ∃ (A : CoreArgs) (T : ScopeTable) (S : Schema) (D : Frame),
+      A.jointUnique = .sample ∧
+      frameErrorsWith A T .schemaAndData S D [0] ≠ frameErrors T .schemaAndData S (D.take [0]) :=
+  ⟨{ presence := .whole, jointUnique := .sample, components := .whole },
+   ⟨none, none, none, none, none, none, none, none, none, none⟩,
+   { columns := [{ name := some "a", dtype := some .int64 }] },
+   { cols := [⟨"a", .int64, [.int 1, .null]⟩], index := [⟨none, .int64, [.int 0, .int 1]⟩], nrows := 2 },
+   rfl, by decide⟩
+
+/-- **C20 (a)+(verdict), both backends as they are in the source**: with the program and the table of
+the source and distinct keys, `validate(D, head, tail, sample)` collects the errors of validating
+`rows_by_position(D, …)` -/
+theorem validate_options_eq_selected_rows {κ : Type} [BEq κ] [LawfulBEq κ] (p : SubProg) (tbl : List (CoreCheck × Arg))
+    (hp : p = stdProg) (htbl : seeSample tbl [.jointUnique, .components] = true)
+    (key : Nat → κ) (T : ScopeTable) (d : Depth) (S : Schema) (D : Frame)
+    (h t : Option Nat) (s : Option (List Nat))
+    (hs : ∀ ps, s = some ps → ∀ i ∈ ps, i < D.nrows)
+    (hinj : ∀ i j, i < D.nrows → j < D.nrows → key i = key j → i = j) :
+    frameErrorsWith (CoreArgs.ofTable tbl) T d S D (runSub p key D.nrows h t s)
+      = frameErrors T d S (D.take (requestedPos D.nrows h t s)) := by
+  subst hp
+  rw [runSub_std, kept_eq_requested key D.nrows h t s hs hinj]
+  apply validate_with_options
+  · simp only [seeSample, List.all_cons, List.all_nil, Bool.and_true, Bool.and_eq_true, beq_iff_eq] at htbl
+    exact htbl.1
+  · simp only [seeSample, List.all_cons, List.all_nil, Bool.and_true, Bool.and_eq_true, beq_iff_eq] at htbl
+    exact htbl.2
+
+/-! ## Per-run obligations on the regenerated program and tables -/
+
+open Generated.SubsampleRules in
+theorem source_pandas_subsample : pandasSubsample = stdProg := by decide
+
+open Generated.SubsampleRules in
+theorem source_polars_subsample : polarsSubsample = stdProg := by decide
+
+open Generated.SubsampleRules in
+/-- every row-dependent core check of the two containers receives the subsample (dataframe-level
+checks included: user functions of the object they are handed) -/
+theorem source_container_tables :
+    (seeSample pandasContainer [.jointUnique, .components, .frameChecks]
+      && seeSample polarsContainer [.jointUnique, .components, .frameChecks]
+      && wellFormedTable pandasContainer && wellFormedTable polarsContainer) = true := by decide
+
+open Generated.SubsampleRules in
+theorem source_field_tables :
+    (seeSample pandasArray [.nullable, .unique, .dtype, .checks]
+      && seeSample polarsComponent [.nullable, .unique, .dtype, .checks]
+      && wellFormedTable pandasArray && wellFormedTable polarsComponent) = true := by decide
+
+open Generated.SubsampleRules in
+theorem source_forwards_options : forwards.all id = true := by decide
+
+example : takeVals [.int 1, .int 2, .int 3] [2, 0] = [.int 3, .int 1] := by decide
 
 end C20
 end Pandera
